@@ -337,11 +337,82 @@ func diffClass(compiled string, subj []byte, sg, sr [][]int) string {
 		return "grafana:foldcase-bytelen"
 	case who == "re2" && insideRune(sr):
 		return "re2:span-inside-rune"
+	case who == "re2" && hasNullableLoop(compiled) && sameStartDifferentEnd(sg, sr):
+		// both engines find a match at the same offset but prefer different ends, and the pattern repeats a sub-expression
+		// that can match the empty string (RE2 and Go's regexp resolve the priority of empty iterations differently)
+		return "re2:nullable-loop-priority"
 	case strings.Contains(compiled, `\p`) || strings.Contains(compiled, `\P`):
 		return who + ":unicode-class"
 	default:
 		return who + ":other"
 	}
+}
+
+// nullable: the regexp can match the empty string.
+func nullable(re *syntax.Regexp) bool {
+	switch re.Op {
+	case syntax.OpEmptyMatch, syntax.OpStar, syntax.OpQuest, syntax.OpBeginLine, syntax.OpEndLine, syntax.OpBeginText, syntax.OpEndText,
+		syntax.OpWordBoundary, syntax.OpNoWordBoundary:
+		return true
+	case syntax.OpLiteral:
+		return len(re.Rune) == 0
+	case syntax.OpCapture, syntax.OpPlus:
+		return nullable(re.Sub[0])
+	case syntax.OpRepeat:
+		return re.Min == 0 || nullable(re.Sub[0])
+	case syntax.OpConcat:
+		for _, s := range re.Sub {
+			if !nullable(s) {
+				return false
+			}
+		}
+		return true
+	case syntax.OpAlternate:
+		for _, s := range re.Sub {
+			if nullable(s) {
+				return true
+			}
+		}
+		return false
+	}
+	return false
+}
+
+// hasNullableLoop: some repetition (*, +, {n,m}) has an operand that can match the empty string.
+func hasNullableLoop(compiled string) bool {
+	t, err := syntax.Parse(compiled, syntax.Perl)
+	if err != nil {
+		return false
+	}
+	var walk func(re *syntax.Regexp) bool
+	walk = func(re *syntax.Regexp) bool {
+		switch re.Op {
+		case syntax.OpStar, syntax.OpPlus, syntax.OpRepeat:
+			if nullable(re.Sub[0]) {
+				return true
+			}
+		}
+		for _, s := range re.Sub {
+			if walk(s) {
+				return true
+			}
+		}
+		return false
+	}
+	return walk(t)
+}
+
+// sameStartDifferentEnd: the first differing match starts at the same offset in both lists.
+func sameStartDifferentEnd(a, b [][]int) bool {
+	for i := 0; i < len(a) && i < len(b); i++ {
+		if a[i][0] != b[i][0] {
+			return false
+		}
+		if a[i][1] != b[i][1] {
+			return true
+		}
+	}
+	return false
 }
 
 func (rn *runner) thresholdParsing(quick bool) {
